@@ -601,14 +601,15 @@ func replayJob(prop string, replay json.RawMessage, all, trace bool) (Job, bool)
 	if json.Unmarshal(replay, &rp) != nil {
 		return Job{}, false
 	}
+	isSet := func(m json.RawMessage) bool { return len(m) > 0 && string(m) != "null" }
 	switch {
-	case rp.Ops != nil:
+	case isSet(rp.Ops):
 		orc := rp.Oracle
 		if orc == "" {
 			orc = prop
 		}
 		return Job{Kind: "hist", Args: mustJSON(map[string]any{"cfg": rp.Cfg, "supis": rp.Supis, "ops": rp.Ops, "oracle": orc, "gor": true, "all": all})}, true
-	case rp.Job != nil:
+	case isSet(rp.Job):
 		kind := rp.Kind
 		if kind == "" {
 			kind = replayKinds[prop]
@@ -735,6 +736,9 @@ func replayMain(prop, path string) int {
 	}
 	var pretty map[string]any
 	json.Unmarshal(r.Out, &pretty)
+	if os.Getenv("VREPLAY_RAW") != "" {
+		fmt.Println("raw:", oneLine(string(r.Out), 4000))
+	}
 	finds, _ := pretty["finds"].([]any)
 	if tr, _ := pretty["trace"].([]any); len(tr) > 0 {
 		for _, l := range tr {
